@@ -135,6 +135,12 @@ func (m *MultiEpoch) CountEpochs() int {
 func (m *MultiEpoch) GetEpochNumbers() []uint64 {
 	m.mu.RLock()
 	defer m.mu.RUnlock()
+	return m.getEpochNumbersLocked()
+}
+
+// getEpochNumbersLocked is GetEpochNumbers for callers that already hold m.mu.
+// (Taking the read lock a second time deadlocks as soon as a writer is waiting in between.)
+func (m *MultiEpoch) getEpochNumbersLocked() []uint64 {
 	var epochNumbers []uint64
 	for epochNumber := range m.epochs {
 		epochNumbers = append(epochNumbers, epochNumber)
@@ -148,7 +154,7 @@ func (m *MultiEpoch) GetEpochNumbers() []uint64 {
 func (m *MultiEpoch) GetMostRecentAvailableEpoch() (*Epoch, error) {
 	m.mu.RLock()
 	defer m.mu.RUnlock()
-	numbers := m.GetEpochNumbers()
+	numbers := m.getEpochNumbersLocked()
 	if len(numbers) > 0 {
 		return m.epochs[numbers[0]], nil
 	}
@@ -158,7 +164,7 @@ func (m *MultiEpoch) GetMostRecentAvailableEpoch() (*Epoch, error) {
 func (m *MultiEpoch) GetOldestAvailableEpoch() (*Epoch, error) {
 	m.mu.RLock()
 	defer m.mu.RUnlock()
-	numbers := m.GetEpochNumbers()
+	numbers := m.getEpochNumbersLocked()
 	if len(numbers) > 0 {
 		return m.epochs[numbers[len(numbers)-1]], nil
 	}
